@@ -576,7 +576,7 @@ func (ent *entityNode) acceptQuery(visitor FileVisitor) error {
 
 	}
 	getMethod := &sourcedef_j5pb.APIMethod{
-		Name:       fmt.Sprintf("%sGet", strcase.ToCamel(name)),
+		Name:       fmt.Sprintf("%sGet", strcase.ToCamel(entity.Name)),
 		HttpPath:   strings.Join(httpPath, "/"),
 		HttpMethod: client_j5pb.HTTPMethod_GET,
 		Request: &sourcedef_j5pb.AnonymousObject{
@@ -599,7 +599,7 @@ func (ent *entityNode) acceptQuery(visitor FileVisitor) error {
 	}
 
 	listMethod := &sourcedef_j5pb.APIMethod{
-		Name:       fmt.Sprintf("%sList", strcase.ToCamel(name)),
+		Name:       fmt.Sprintf("%sList", strcase.ToCamel(entity.Name)),
 		HttpPath:   strings.Join(listHttpPath, "/"),
 		HttpMethod: client_j5pb.HTTPMethod_GET,
 		Request: &sourcedef_j5pb.AnonymousObject{
@@ -639,7 +639,7 @@ func (ent *entityNode) acceptQuery(visitor FileVisitor) error {
 	}
 
 	eventsMethod := &sourcedef_j5pb.APIMethod{
-		Name:       fmt.Sprintf("%sEvents", strcase.ToCamel(name)),
+		Name:       fmt.Sprintf("%sEvents", strcase.ToCamel(entity.Name)),
 		HttpPath:   strings.Join(append(httpPath, "events"), "/"),
 		HttpMethod: client_j5pb.HTTPMethod_GET,
 		Request: &sourcedef_j5pb.AnonymousObject{
@@ -703,7 +703,7 @@ func (ent *entityNode) acceptQuery(visitor FileVisitor) error {
 
 	query := &sourcedef_j5pb.Service{
 		BasePath: gl.Ptr(fmt.Sprintf("/%s/q", entity.BaseUrlPath)),
-		Name:     gl.Ptr(fmt.Sprintf("%sQuery", strcase.ToCamel(name))),
+		Name:     gl.Ptr(fmt.Sprintf("%sQuery", strcase.ToCamel(entity.Name))),
 		Methods: []*sourcedef_j5pb.APIMethod{
 			getMethod,
 			listMethod,
